@@ -203,3 +203,5 @@ INFO = dict(
     outside=["string pairs beyond those listed", "machines outside the catalogue"],
     assumptions=["weights >= 0", "epsilon-cycle pivots > 0"],
 )
+
+INFO["technique"] = 'symbolic execution of FST composition, evaluation, sections, T, project, constructors with z3 real weights; z3 proves (f@g)(x,z) == sum_y f(x,y)g(y,z); bounded'
